@@ -7,7 +7,9 @@ import (
 	"net/http"
 	"net/http/httptest"
 	"net/url"
+	"sort"
 	"strings"
+	"sync"
 	"testing"
 
 	"github.com/honeycombio/refinery/config"
@@ -78,6 +80,8 @@ var c25Routes = []struct {
 	{"query-root", false},
 }
 
+var c25OtherMethods = []string{"POST", "HEAD", "PUT", "DELETE", "OPTIONS", "PATCH", "TRACE", "CONNECT", "PURGE", "get", "options", "Get"}
+
 func c25Table() []c25Row {
 	var rows []c25Row
 	for _, l := range []E3Listener{E3Incoming, E3Peer} {
@@ -89,12 +93,14 @@ func c25Table() []c25Row {
 			}
 		}
 	}
-	// other methods on query paths: relayed, never answered from local state
+	// every other method token on every query path and format: not Refinery's query
+	// endpoints (relayed); whatever answers them must not reveal local state without a
+	// valid token either
 	for _, conf := range []bool{false, true} {
-		for _, m := range []string{"POST", "HEAD", "PUT", "DELETE"} {
-			for _, tok := range []string{"none", "exact"} {
-				for _, rt := range []string{"trace", "rules-json", "allrules-json", "configmetadata"} {
-					rows = append(rows, c25Row{Configured: conf, Token: tok, Route: rt, Method: m, Listener: E3Incoming})
+		for _, m := range c25OtherMethods {
+			for _, tok := range []string{"none", "empty", "exact"} {
+				for _, rt := range c25Routes {
+					rows = append(rows, c25Row{Configured: conf, Token: tok, Route: rt.name, Method: m, Listener: E3Incoming})
 				}
 			}
 		}
@@ -127,7 +133,7 @@ func c25SwapCase(s string) string {
 func TestVerif_C25(t *testing.T) {
 	run := verifkit.Start(t, "C25", "route")
 	defer run.Finish()
-	run.Rule("complete table: QueryAuthToken {unset,set} x client token class {none, empty, prefix, suffix, case variant, exact, exact+space, space+exact, doubled, superstring, token only in X-Honeycomb-Team / Authorization / query string} x /query/ route {trace, rules and allrules in json/yaml/toml/odd-case/unsupported format, configmetadata, unknown path, /query/} x listener {incoming, peer}, plus other methods on the same paths; each row is one request against the real mux; token text, trace id, dataset and planted sentinels come from the PRNG. A row is non-trivial when the token check decides it (everything except rows for other methods and unregistered paths, which are relayed); rows are distinct by their table coordinates.")
+	run.Rule("complete table: QueryAuthToken {unset,set} x client token class {none, empty, prefix, suffix, case variant, exact, exact+space, space+exact, doubled, superstring, token only in X-Honeycomb-Team / Authorization / query string} x /query/ route {trace, rules and allrules in json/yaml/toml/odd-case/unsupported format, configmetadata, unknown path, /query/} x listener {incoming, peer}; every other method token (POST, HEAD, PUT, DELETE, OPTIONS, PATCH, TRACE, CONNECT, PURGE, get, options, Get) on every one of these paths and formats with no / an empty / the exact token; a second table with a reload of the token between the middleware's reads (config wrapper: token before -> after the k-th read, k=1,2; set->empty, set->other, empty->set; client token none/empty/old/new/wrong/case variant); each row is one request against the real mux; token text, trace id, dataset and planted sentinels come from the PRNG. A row is non-trivial when the token check decides it (everything except rows for other methods and unregistered paths, which are relayed); rows are distinct by their table coordinates.")
 	run.Assume("the planted sentinels (rules field names, sampler name, config metadata id/hash, owning node address, configured token, SendKey, receive keys) are the only secrets a query endpoint could reveal in this bench (MockConfig + scripted sharder)")
 	run.Assume("header values reach the handler verbatim (in-process request): a trailing/leading space is part of the client's token here, although a real HTTP/1.1 parser would trim it")
 
@@ -283,7 +289,24 @@ func TestVerif_C25(t *testing.T) {
 			}
 			return out
 		}
-		if row.Method != "GET" || row.Route == "unknown-query-path" || row.Route == "query-root" {
+		if row.Method != "GET" {
+			// Q4: every other method. With a valid token nothing is asserted; without one the
+			// answer (Refinery's or the relayed one) must not carry local state
+			run.Count("other_method_rows", 1)
+			if authorised {
+				return
+			}
+			run.Nontrivial(row.String())
+			if l := leaks(); len(l) > 0 {
+				cls := "token-set"
+				if !row.Configured {
+					cls = "token-unset"
+				}
+				run.Violation(sig("reveals-without-valid-token/method-"+row.Method+"/"+cls), fmt.Sprintf("%s %s answered %d revealing %v although %s", row.Method, req.Path, resp.Status, l, c25Why(row)), wit())
+			}
+			return
+		}
+		if row.Route == "unknown-query-path" || row.Route == "query-root" {
 			// Q4: not one of Refinery's query endpoints (relayed to the Honeycomb API);
 			// whatever comes back must not carry local state
 			if l := leaks(); len(l) > 0 {
@@ -320,6 +343,170 @@ func TestVerif_C25(t *testing.T) {
 			run.Sample(map[string]any{"row": row.String(), "status": resp.Status, "body": resp.Body})
 		}
 	})
+
+	// ---- reload between the middleware's reads of the token ----
+	// The routers of a second bench read their configuration through c25FlipConfig: the
+	// k-th and earlier calls of GetQueryAuthToken within one request answer the token
+	// configured before a reload, later calls the token after it (k = 1, 2). Oracle: data
+	// or sentinels only for a request that carried exactly a token that was configured
+	// (non-empty) at some instant during the request; a request without a token or with
+	// an empty one never gets any.
+	fb := e3New(t, E3Options{Configure: func(c *config.MockConfig) { c.GetHoneycombAPIVal = upstream.URL }})
+	defer fb.Close()
+	flip := &c25FlipConfig{MockConfig: fb.Cfg}
+	for _, l := range []E3Listener{E3Incoming, E3Peer} {
+		fb.routers[l].Config = flip
+	}
+	type flipRow struct {
+		Transition string // set->empty, set->other, empty->set
+		K          int
+		Token      string // none, empty, old, new, wrong, case-variant-old
+		Route      string
+		Listener   E3Listener
+	}
+	var frows []flipRow
+	for _, l := range []E3Listener{E3Incoming, E3Peer} {
+		for _, tr := range []string{"set->empty", "set->other", "empty->set"} {
+			for _, k := range []int{1, 2} {
+				for _, tok := range []string{"none", "empty", "old", "new", "wrong", "case-variant-old"} {
+					for _, rt := range c25Routes {
+						if rt.data {
+							frows = append(frows, flipRow{tr, k, tok, rt.name, l})
+						}
+					}
+				}
+			}
+		}
+	}
+	run.Count("reload_table_rows", int64(len(frows)))
+	run.Cases("reload-between-reads", len(frows)*run.N(1, 6), func(i int, rng *verifkit.Rand) {
+		row := frows[i%len(frows)]
+		name := fmt.Sprintf("reload/%s/k=%d/%s/%s/%s", row.Transition, row.K, row.Token, row.Route, row.Listener)
+		sent := map[string]string{}
+		for _, kind := range []string{"rulefield", "samplername", "metaid", "metahash", "peerhost"} {
+			sent[kind] = "zq" + kind + rng.Hex(10)
+		}
+		peer := "http://" + sent["peerhost"] + ".verif.invalid:8081"
+		tokT, tokU := "Tk"+rng.Hex(8)+"aB", "Uk"+rng.Hex(8)+"cD"
+		before, after := tokT, ""
+		switch row.Transition {
+		case "set->other":
+			after = tokU
+		case "empty->set":
+			before, after = "", tokU
+		}
+		fb.Config(func(c *config.MockConfig) {
+			c.GetSamplerTypeVal = &config.DynamicSamplerConfig{SampleRate: 7, FieldList: []string{sent["rulefield"], "other"}}
+			c.GetSamplerTypeName = sent["samplername"]
+			c.CfgMetadata = []config.ConfigMetadata{{Type: "config", ID: sent["metaid"], Hash: sent["metahash"], LoadedAt: "2024-01-01T00:00:00Z"}}
+		})
+		fb.Sharder.SetOwner(func(string) string { return peer })
+		req := &E3Req{Listener: row.Listener, Method: "GET", Header: http.Header{}, Note: name}
+		sends, client := true, ""
+		switch row.Token {
+		case "none":
+			sends = false
+		case "empty":
+		case "old":
+			client = tokT
+		case "new":
+			client = tokU
+		case "wrong":
+			client = "Wk" + rng.Hex(8)
+		case "case-variant-old":
+			client = c25SwapCase(tokT)
+		}
+		if sends {
+			req.Header[http.CanonicalHeaderKey(types.QueryTokenHeader)] = []string{client}
+		}
+		switch strings.SplitN(row.Route, "-", 2)[0] {
+		case "trace":
+			req.Path = "/query/trace/" + rng.Hex(32)
+		case "rules":
+			req.Path = "/query/rules/" + verifkit.Pick(rng, "json", "yaml", "toml") + "/ds" + rng.Hex(4)
+		case "allrules":
+			req.Path = "/query/allrules/" + verifkit.Pick(rng, "json", "yaml", "toml")
+		default:
+			req.Path = "/query/configmetadata"
+		}
+		flip.arm(before, after, row.K)
+		resp := fb.Serve(req)
+		reads := flip.disarm()
+		run.Count("reload_requests", 1)
+		if reads > row.K {
+			run.Count("reload_requests_that_read_the_token_after_the_reload", 1)
+		}
+		// tokens configured (non-empty) at some instant of the request
+		valid := sends && client != "" && (client == before || (client == after && reads > row.K))
+		hay := resp.Body
+		for k, vs := range resp.Header {
+			hay += "\n" + k + ": " + strings.Join(vs, "\n")
+		}
+		var leaked []string
+		for kind, sv := range sent {
+			if strings.Contains(hay, sv) {
+				leaked = append(leaked, kind)
+			}
+		}
+		for _, tk := range []string{before, after} {
+			if tk != "" && tk != client && strings.Contains(hay, tk) {
+				leaked = append(leaked, "a configured QueryAuthToken")
+			}
+		}
+		sort.Strings(leaked)
+		run.Nontrivial(name)
+		if valid {
+			return // data allowed (not required: either side of the reload may win)
+		}
+		routeClass := strings.SplitN(row.Route, "-", 2)[0]
+		wit := map[string]any{"row": name, "token_before_reload": before, "token_after_reload": after, "reload_after_read_number": row.K,
+			"token_reads_in_request": reads, "client_token": client, "token_header_sent": sends, "request": req.Witness(), "response": resp, "sentinels": sent}
+		if resp.Status < 400 {
+			run.Violation("C25/"+routeClass+"/reload-between-token-reads/answered-without-valid-token/"+row.Token,
+				fmt.Sprintf("GET %s answered %d to a %s token although the configured token went %q -> %q during the request", req.Path, resp.Status, row.Token, before, after), wit)
+		}
+		if len(leaked) > 0 {
+			run.Violation("C25/"+routeClass+"/reload-between-token-reads/reveals-without-valid-token/"+row.Token,
+				fmt.Sprintf("GET %s (status %d, %s token, configured token %q -> %q during the request) reveals %v", req.Path, resp.Status, row.Token, before, after, leaked), wit)
+		}
+	})
+}
+
+// c25FlipConfig is the Config the routers of the reload pass read: a MockConfig whose
+// QueryAuthToken changes after the k-th read within one request (a reload landing
+// between two reads of the middleware).
+type c25FlipConfig struct {
+	*config.MockConfig
+	mu            sync.Mutex
+	armed         bool
+	before, after string
+	k, reads      int
+}
+
+func (f *c25FlipConfig) arm(before, after string, k int) {
+	f.mu.Lock()
+	f.armed, f.before, f.after, f.k, f.reads = true, before, after, k, 0
+	f.mu.Unlock()
+}
+
+func (f *c25FlipConfig) disarm() int {
+	f.mu.Lock()
+	defer f.mu.Unlock()
+	f.armed = false
+	return f.reads
+}
+
+func (f *c25FlipConfig) GetQueryAuthToken() string {
+	f.mu.Lock()
+	defer f.mu.Unlock()
+	if !f.armed {
+		return f.MockConfig.GetQueryAuthToken()
+	}
+	f.reads++
+	if f.reads <= f.k {
+		return f.before
+	}
+	return f.after
 }
 
 func c25Why(r c25Row) string {
